@@ -15,7 +15,7 @@ RULE = ("seeded runs on objectives with exactly known Lipschitz constant L on th
 ASSUMPTIONS = ["the reliability condition is evaluated with M at selection time (the theorem needs the characteristics at selection to be valid bounds); the bound uses the final M as stated",
                "f* is exact or an upper estimate, L exact or an upper bound: both only weaken the check",
                "the bound is conservative (largest observed gap/bound is reported), so this monitor is sound but of modest power; C02/C03 carry the sharp detection"]
-SIZES = {"quick": 700, "thorough": 5000}
+SIZES = {"quick": 700, "thorough": 12000}
 
 
 def KN(N):
